@@ -259,3 +259,8 @@ package memfs
 //@ func (*dirNode).size
 //@   requires held(dn.mu)
 //@   modifies nothing
+
+//@ func (*dirNode).dirNames
+//@   requires held(dn.mu)
+//@ func (*dirNode).dirEntries
+//@   requires held(dn.mu)
